@@ -6,6 +6,32 @@ fn any_core() -> Hc128Core {
     Hc128Core { t: kani::any(), counter1024: kani::any() }
 }
 
+// ---- C10 (fallback / second proof of the index part): Hc128Rng::eq distinguishes every pair of read positions ----
+// Equality of the cores is proved for arbitrary cores on the Verus side; here the core is a fixed one (so that
+// generate() is concrete and cheap) and the read positions range over ALL pairs 0..=16, reached both by
+// generate_and_set and by consuming words, including "last word left" vs "block used up".
+#[kani::proof]
+#[kani::unwind(20)]
+fn hc128_rng_eq_all_index_pairs() {
+    let core = Hc128Core { t: [0u32; 1024], counter1024: 0 };
+    let mut r1 = Hc128Rng(BlockRng::new(core.clone()));
+    let mut r2 = Hc128Rng(BlockRng::new(core));
+    let i: usize = kani::any();
+    let j: usize = kani::any();
+    kani::assume(i < 16 && j < 16);
+    r1.0.generate_and_set(i);
+    r2.0.generate_and_set(j);
+    let n1: usize = kani::any();
+    let n2: usize = kani::any();
+    kani::assume(n1 <= 16 - i && n2 <= 16 - j);
+    let mut k = 0;
+    while k < n1 { let _ = r1.next_u32(); k += 1; }
+    let mut k = 0;
+    while k < n2 { let _ = r2.next_u32(); k += 1; }
+    // same core (one generate each from the same state), positions i+n1 and j+n2 in 0..=16
+    assert!((r1 == r2) == (i + n1 == j + n2));
+}
+
 // ---- C02/C09: from_seed passes the little-endian words of the seed to init (init itself: Verus) -----------------
 fn init_stub(seed: [u32; SEED_WORDS]) -> Hc128Core {
     let mut t = [0u32; 1024];
@@ -54,21 +80,25 @@ fn pcg32_seed(mut state: u64) -> [u8; 32] {
 }
 // 64-bit multiplication abstracted to an uninterpreted function (memo table): agreement for every interpretation of
 // wrapping_mul implies agreement for the real one; two bit-blasted copies of eight chained multipliers are out of reach.
-static mut MUL_ARGS: [(u64, u64, u64); 40] = [(0, 0, 0); 40];
-static mut MUL_N: usize = 0;
+use core::sync::atomic::{AtomicU64, AtomicUsize, Ordering::Relaxed};
+static MUL_A: [AtomicU64; 40] = [const { AtomicU64::new(0) }; 40];
+static MUL_B: [AtomicU64; 40] = [const { AtomicU64::new(0) }; 40];
+static MUL_R: [AtomicU64; 40] = [const { AtomicU64::new(0) }; 40];
+static MUL_N: AtomicUsize = AtomicUsize::new(0);
 fn mul_uf(a: u64, b: u64) -> u64 {
-    unsafe {
-        let mut i = 0;
-        while i < MUL_N {
-            if MUL_ARGS[i].0 == a && MUL_ARGS[i].1 == b { return MUL_ARGS[i].2; }
-            i += 1;
-        }
-        let r: u64 = kani::any();
-        assert!(MUL_N < 40);
-        MUL_ARGS[MUL_N] = (a, b, r);
-        MUL_N += 1;
-        r
+    let n = MUL_N.load(Relaxed);
+    let mut i = 0;
+    while i < n {
+        if MUL_A[i].load(Relaxed) == a && MUL_B[i].load(Relaxed) == b { return MUL_R[i].load(Relaxed); }
+        i += 1;
     }
+    let r: u64 = kani::any();
+    assert!(n < 40);
+    MUL_A[n].store(a, Relaxed);
+    MUL_B[n].store(b, Relaxed);
+    MUL_R[n].store(r, Relaxed);
+    MUL_N.store(n + 1, Relaxed);
+    r
 }
 #[kani::proof]
 #[kani::unwind(42)]
